@@ -28,71 +28,24 @@ theorem inv0_run (ver : Version) (max : Nat) (m : Bool) (h1 : 1 ≤ max) (h2 : m
     (hn : Avoids unsafeConnack (LState.new ver max m) ops) : Inv0 (lrun (LState.new ver max m) ops) :=
   (Inv0.new ver max m h1 h2).lrun ops hn
 
-theorem inv2_run (ver : Version) (max : Nat) (m : Bool) (h1 : 1 ≤ max) (h2 : max ≤ u16Max) (ops : List LOp)
-    (hn : Avoids (fun l op => unsafeConnack l op ∨ idReuseAwaitingComp l op) (LState.new ver max m) ops) :
-    Inv0 (lrun (LState.new ver max m) ops) ∧ Inv2 (lrun (LState.new ver max m) ops) := by
-  apply run_of_inv (fun l => Inv0 l ∧ Inv2 l) (fun l op => ¬ (unsafeConnack l op ∨ idReuseAwaitingComp l op))
-  · intro l op hi hok
-    exact ⟨hi.1.lstep op (fun h => hok (Or.inl h)), hi.2.lstep hi.1 op (fun h => hok (Or.inr h))⟩
-  · exact ⟨Inv0.new ver max m h1 h2, Inv2.new ver max m⟩
-  · exact hn.not_not
-
-theorem inv3_run (ver : Version) (max : Nat) (m : Bool) (h1 : 1 ≤ max) (h2 : max ≤ u16Max) (ops : List LOp)
-    (hn : Avoids (fun l op => unsafeConnack l op ∨ idReuseAwaitingComp l op ∨ failedRecOrComp l op) (LState.new ver max m) ops) :
-    Inv3 (lrun (LState.new ver max m) ops) := by
-  have := run_of_inv (fun l => Inv0 l ∧ Inv2 l ∧ Inv3 l)
-    (fun l op => ¬ (unsafeConnack l op ∨ idReuseAwaitingComp l op ∨ failedRecOrComp l op)) ?_
-    (LState.new ver max m) ops ⟨Inv0.new ver max m h1 h2, Inv2.new ver max m, Inv3.new ver max m⟩ hn.not_not
-  · exact this.2.2
-  · intro l op hi hok
-    exact ⟨hi.1.lstep op (fun h => hok (Or.inl h)), hi.2.1.lstep hi.1 op (fun h => hok (Or.inr (Or.inl h))),
-      Inv3.lstep hi.1 hi.2.1 hi.2.2 op (fun h => hok (Or.inr (Or.inr h)))⟩
-
 theorem inv4_run (ver : Version) (max : Nat) (m : Bool) (h1 : 1 ≤ max) (h2 : max ≤ u16Max) (ops : List LOp)
-    (hn : Avoids (fun l op => unsafeConnack l op ∨ cleanWithCollision l op ∨ failedAckOnCollision l op) (LState.new ver max m) ops) :
-    Inv4 (lrun (LState.new ver max m) ops) := by
-  have := run_of_inv (fun l => Inv0 l ∧ Inv4 l)
-    (fun l op => ¬ (unsafeConnack l op ∨ cleanWithCollision l op ∨ failedAckOnCollision l op)) ?_
+    (hn : Avoids unsafeConnack (LState.new ver max m) ops) : Inv4 (lrun (LState.new ver max m) ops) := by
+  have := run_of_inv (fun l => Inv0 l ∧ Inv4 l) (fun l op => ¬ unsafeConnack l op) ?_
     (LState.new ver max m) ops ⟨Inv0.new ver max m h1 h2, Inv4.new ver max m⟩ hn.not_not
   · exact this.2
   · intro l op hi hok
-    exact ⟨hi.1.lstep op (fun h => hok (Or.inl h)),
-      Inv4.lstep hi.1 hi.2 op (fun h => hok (Or.inr (Or.inl h))) (fun h => hok (Or.inr (Or.inr h)))⟩
+    exact ⟨hi.1.lstep op hok, hi.2.lstep hi.1 op⟩
+
+theorem inv23_run (ver : Version) (max : Nat) (m : Bool) (h1 : 1 ≤ max) (h2 : max ≤ u16Max) (ops : List LOp)
+    (hn : Avoids unsafeConnack (LState.new ver max m) ops) :
+    Inv0 (lrun (LState.new ver max m) ops) ∧ Inv2 (lrun (LState.new ver max m) ops) ∧ Inv3 (lrun (LState.new ver max m) ops) := by
+  apply run_of_inv (fun l => Inv0 l ∧ Inv2 l ∧ Inv3 l) (fun l op => ¬ unsafeConnack l op)
+  · intro l op hi hok
+    exact ⟨hi.1.lstep op hok, hi.2.1.lstep hi.1 op, Inv3.lstep hi.1 hi.2.1 hi.2.2 op⟩
+  · exact ⟨Inv0.new ver max m h1 h2, Inv2.new ver max m, Inv3.new ver max m⟩
+  · exact hn.not_not
 
 /-! ### with the ghost -/
-
-/-- everything C07 needs at once -/
-structure BAll (l : LState) (g : Ghost) : Prop where
-  b1 : B1 l g
-  i2 : Inv2 l
-  i3 : Inv3 l
-  i4 : Inv4 l
-
-/-- all corner cases the C07 clauses exclude -/
-def c07Trigger (l : LState) (op : LOp) : Prop :=
-  unsafeConnack l op ∨ pubcompOnCollision l op ∨ idReuseAwaitingComp l op ∨ failedRecOrComp l op ∨
-  cleanWithCollision l op ∨ failedAckOnCollision l op
-
-theorem BAll.step (l : LState) (g : Ghost) (op : LOp) (h : BAll l g) (hn : ¬ c07Trigger l op) :
-    match (lstep l op).2 with
-    | none => BAll (lstep l op).1 g
-    | some o => BAll (lstep l op).1 (g.step o) := by
-  have h1 := h.b1.step l g op (fun h' => hn (h'.elim Or.inl (fun h'' => Or.inr (Or.inl h''))))
-  have h0 := h.b1.b0.inv0
-  have h2 := h.i2.lstep h0 op (fun h' => hn (Or.inr (Or.inr (Or.inl h'))))
-  have h3 := Inv3.lstep h0 h.i2 h.i3 op (fun h' => hn (Or.inr (Or.inr (Or.inr (Or.inl h')))))
-  have h4 := Inv4.lstep h0 h.i4 op (fun h' => hn (Or.inr (Or.inr (Or.inr (Or.inr (Or.inl h'))))))
-    (fun h' => hn (Or.inr (Or.inr (Or.inr (Or.inr (Or.inr h'))))))
-  cases ho : (lstep l op).2 with
-  | none => rw [ho] at h1; exact ⟨h1, h2, h3, h4⟩
-  | some o => rw [ho] at h1; exact ⟨h1, h2, h3, h4⟩
-
-theorem BAll.new (ver : Version) (max : Nat) (m : Bool) (h1 : 1 ≤ max) (h2 : max ≤ u16Max) :
-    BAll (LState.new ver max m) (Ghost.init ver max m) :=
-  ⟨B1.new ver max m h1 h2, Inv2.new ver max m, Inv3.new ver max m, Inv4.new ver max m⟩
-
-theorem lstep_some_ne {l : LState} {op : LOp} {o : Obs} (ho : (lstep l op).2 = some o) :
-    (lstep l op).2 = some o := ho
 
 /-- a strengthened `along_of_inv` that also hands out the equation `(lstep l op).2 = some o` -/
 theorem along_of_inv' (I : LState → Ghost → Prop) (ok : LState → LOp → Prop)
@@ -116,75 +69,56 @@ theorem along_of_inv' (I : LState → Ghost → Prop) (ok : LState → LOp → P
     | none => rw [ho] at hst; exact ih _ _ hst hok.2
     | some o => rw [ho] at hst; exact ⟨hP l g op o hi hok1 ho hst, ih _ _ hst hok.2⟩
 
-/-- the C07 monitor raises nothing at any step of a run that avoids the C07 triggers -/
+/-- the C07 monitor raises nothing at any step of a run that avoids #17 (residual) -/
 theorem c07_checks_along (ver : Version) (max : Nat) (m : Bool) (h1 : 1 ≤ max) (h2 : max ≤ u16Max) (ops : List LOp)
-    (hn : Avoids c07Trigger (LState.new ver max m) ops) :
+    (hn : Avoids unsafeConnack (LState.new ver max m) ops) :
     Along (fun _ g o _ g' => ∀ d d', C07.checks g d o g' d' = none) (LState.new ver max m) (Ghost.init ver max m) ops := by
-  apply along_of_inv' BAll (fun l op => ¬ c07Trigger l op) BAll.step _ _ _ _ _ (BAll.new ver max m h1 h2) hn.not_not
+  apply along_of_inv' B1 (fun l op => ¬ unsafeConnack l op) B1.step _ _ _ _ _ (B1.new ver max m h1 h2) hn.not_not
   intro l g op o hi hok ho hi' d d'
   obtain ⟨v1, v2, v3⟩ := step_fields g o
-  simp only [C07.checks, firstFail, chk, C07_range_ok hi.b1.b0 op o ho, C07_window_ok hi'.b1, C07_dupId_ok hi'.b1 hi'.i2,
-    C07_resumes_ok hi'.b1 hi'.i3 o v3.symm, C07_resolvable_ok hi'.b1 hi'.i4 o v2.symm, if_true, List.findSome?_cons,
+  simp only [C07.checks, firstFail, chk, C07_range_ok hi op o ho, C07_window_ok hi', C07_dupId_ok hi',
+    C07_resumes_ok hi' o v3.symm, C07_resolvable_ok hi' o v2.symm, if_true, List.findSome?_cons,
     List.findSome?_nil, id]
 
-/-- the C02 monitor: needs only the base triggers (#17, #4/#13) -/
-def c02Trigger (l : LState) (op : LOp) : Prop := unsafeConnack l op ∨ pubcompOnCollision l op
-
 theorem c02_checks_along (ver : Version) (max : Nat) (m : Bool) (h1 : 1 ≤ max) (h2 : max ≤ u16Max) (ops : List LOp)
-    (hn : Avoids c02Trigger (LState.new ver max m) ops) :
+    (hn : Avoids unsafeConnack (LState.new ver max m) ops) :
     Along (fun _ g o _ g' => ∀ d d', C02.checks g d o g' d' = none) (LState.new ver max m) (Ghost.init ver max m) ops := by
-  apply along_of_inv' B1 (fun l op => ¬ c02Trigger l op) B1.step _ _ _ _ _ (B1.new ver max m h1 h2) hn.not_not
+  apply along_of_inv' B1 (fun l op => ¬ unsafeConnack l op) B1.step _ _ _ _ _ (B1.new ver max m h1 h2) hn.not_not
   intro l g op o hi hok ho hi' d d'
   obtain ⟨v1, v2, v3⟩ := step_fields g o
-  simp only [C02.checks, firstFail, chk, C02_noLoss_ok hi' o v1.symm v2.symm, C02_relHeld_ok hi'.b0 o v1.symm,
-    C02_cleanExact_ok hi.b0 op o ho, if_true, List.findSome?_cons, List.findSome?_nil, id]
-
-/-- the C10 monitor -/
-def c10Trigger (l : LState) (op : LOp) : Prop :=
-  unsafeConnack l op ∨ pubcompOnCollision l op ∨ unwrittenAnnouncement l op ∨ releaseWithFailureReason l op
+  simp only [C02.checks, firstFail, chk, C02_noLoss_ok hi' o v1.symm v2.symm, C02_relHeld_ok hi' o v1.symm,
+    C02_cleanExact_ok hi op o ho, if_true, List.findSome?_cons, List.findSome?_nil, id]
 
 theorem c10_checks_along (ver : Version) (max : Nat) (m : Bool) (h1 : 1 ≤ max) (h2 : max ≤ u16Max) (ops : List LOp)
-    (hn : Avoids c10Trigger (LState.new ver max m) ops) :
+    (hn : Avoids unsafeConnack (LState.new ver max m) ops) :
     Along (fun _ g o _ g' => ∀ d d', C10.checks g d o g' d' = none) (LState.new ver max m) (Ghost.init ver max m) ops := by
-  apply along_of_inv' B1 (fun l op => ¬ c10Trigger l op)
-    (fun l g op hi hok => B1.step l g op hi (fun h => hok (h.elim Or.inl (fun h' => Or.inr (Or.inl h')))))
-    _ _ _ _ _ (B1.new ver max m h1 h2) hn.not_not
+  apply along_of_inv' B1 (fun l op => ¬ unsafeConnack l op) B1.step _ _ _ _ _ (B1.new ver max m h1 h2) hn.not_not
   intro l g op o hi hok ho hi' d d'
-  have hu := C10_unsolicited_ok hi op o ho (fun h => hok (Or.inr (Or.inl h.2)))
-  simp only [C10.checks, firstFail, chk, C10_noPanic_ok hi.b0.inv0 op o ho, C10_order_ok hi.b0.evs op o ho,
-    C10_ack_ok hi.b0.g0 op o ho, C10_relAnswered_ok hi.b0.g0 op o ho (fun h => hok (Or.inr (Or.inr (Or.inr h)))),
-    hu.1, hu.2, C10_notify_ok hi.b0.evs op o ho (fun h => hok (Or.inr (Or.inr (Or.inl h)))), if_true,
+  have hu := C10_unsolicited_ok hi op o ho
+  simp only [C10.checks, firstFail, chk, C10_noPanic_ok hi.inv0 op o ho, C10_order_ok hi.evs op o ho,
+    C10_ack_ok hi.g0 op o ho, C10_relAnswered_ok hi.g0 op o ho,
+    hu.1, hu.2, C10_notify_ok hi.evs op o ho, if_true,
     List.findSome?_cons, List.findSome?_nil, id]
-
 
 /-! ### C11 -/
 
-theorem core_inOrder_mono (g : Ghost) (s : State) (sop : SOp) (hp : cleanPanics s = false)
-    (h : (g.core (sstepObs s sop)).inOrder = true) : g.inOrder = true := by
-  cases sop with
-  | out r =>
-    rw [core_out] at h
-    simp only [stepOut_inOrder] at h
-    cases r <;> simp_all
-  | inc p =>
-    rw [core_inc] at h
-    simp only [released_inOrder] at h
-    cases p <;> simp_all
-    all_goals (split at h <;> simp_all)
-  | clean => rw [core_clean g s hp] at h; simp_all
-  | drop => rw [core_drop] at h; exact h
-  | inflight =>
-    unfold Ghost.core at h
-    rw [sstepObs_op] at h
-    exact h
-
-def c11Trigger (l : LState) (op : LOp) : Prop := subConsumesId l op ∨ dropsPending l op
-
-/-- invariant behind C11: while the in-order hypothesis holds, the order invariant holds -/
-structure B11 (l : LState) (g : Ghost) : Prop where
-  v4 : l.st.ver = .v4
-  b0 : B0 l g
-  ord : g.inOrder = true → B1 l g ∧ OInv l g.unacked
+theorem handleOutgoing_ver (s : State) (r : Request) : (handleOutgoing s r).1.ver = s.ver := by
+  cases r with
+  | publish p => exact (outgoingPublish_fields s p).2.2.2.2.1
+  | pubrel i =>
+    simp only [handleOutgoing, outgoingPubrel, pubrelWithId, nextPkidSt]
+    (repeat' split) <;> simp_all [State.pushOut, State.pushEv]
+  | subscribe n =>
+    simp only [handleOutgoing, outgoingSubscribe, nextPkidSt]
+    (repeat' split) <;> simp_all [State.pushOut, State.pushEv]
+  | unsubscribe =>
+    simp only [handleOutgoing, outgoingUnsubscribe, nextPkidSt]
+    (repeat' split) <;> simp_all [State.pushOut, State.pushEv]
+  | pingreq => exact (ping_frame s).2.2.2.2.2.1
+  | disconnect => rfl
+  | puback i => rfl
+  | pubrec i => rfl
+  | other => rfl
 
 theorem lstep_ver (l : LState) (op : LOp) : (lstep l op).1.st.ver = l.st.ver := by
   unfold lstep
@@ -193,42 +127,11 @@ theorem lstep_ver (l : LState) (op : LOp) : (lstep l op).1.st.ver = l.st.ver := 
   | some sop =>
     simp only
     cases sop with
-    | out r =>
-      simp only [sstepSt, drainEvents]
-      cases r with
-      | publish p =>
-        simp only [handleOutgoing, outgoingPublish, publishWithId, publishTail, nextPkidSt]
-        (repeat' split) <;> simp_all [State.pushOut, State.pushEv]
-      | pubrel i =>
-        simp only [handleOutgoing, outgoingPubrel, pubrelWithId, nextPkidSt]
-        (repeat' split) <;> simp_all [State.pushOut, State.pushEv]
-      | subscribe n =>
-        simp only [handleOutgoing, outgoingSubscribe, nextPkidSt]
-        (repeat' split) <;> simp_all [State.pushOut, State.pushEv]
-      | unsubscribe =>
-        simp only [handleOutgoing, outgoingUnsubscribe, nextPkidSt]
-        (repeat' split) <;> simp_all [State.pushOut, State.pushEv]
-      | pingreq => exact (ping_frame l.st).2.2.2.2.2.1
-      | disconnect => rfl
-      | puback i => rfl
-      | pubrec i => rfl
-      | other => rfl
+    | out r => exact handleOutgoing_ver l.st r
     | inc p => exact (incoming_frame l.st p).2.1
     | clean => simp only [sstepSt]; split <;> rfl
     | drop => rfl
     | inflight => rfl
-
-theorem lstep_pubcomp_inOrder {l : LState} {g : Ghost} {op : LOp} {o : Obs} (ho : (lstep l op).2 = some o)
-    (ht : pubcompOnCollision l op) : (g.core o).inOrder = false := by
-  obtain ⟨sop, hl, rfl⟩ := lstep_obs ho
-  cases op with
-  | inc p =>
-    simp only [lop?, Option.some.injEq] at hl
-    subst hl
-    cases p with
-    | pubcomp i r => rw [core_inc]; simp [released_inOrder]
-    | _ => exact absurd ht (by simp [pubcompOnCollision])
-  | _ => exact absurd ht (by simp [pubcompOnCollision])
 
 theorem unsafeConnack_v4 {l : LState} (hv : l.st.ver = .v4) (op : LOp) : ¬ unsafeConnack l op := by
   intro h
@@ -240,69 +143,31 @@ theorem unsafeConnack_v4 {l : LState} (hv : l.st.ver = .v4) (op : LOp) : ¬ unsa
     | _ => simp [unsafeConnack] at h
   | _ => simp [unsafeConnack] at h
 
-theorem B11.step (l : LState) (g : Ghost) (op : LOp) (h : B11 l g) (hn : ¬ c11Trigger l op) :
-    match (lstep l op).2 with
-    | none => B11 (lstep l op).1 g
-    | some o => B11 (lstep l op).1 (g.step o) := by
-  have hv' := (lstep_ver l op).trans h.v4
-  have hb0 := h.b0.step l g op (unsafeConnack_v4 h.v4 op)
-  cases ho : (lstep l op).2 with
-  | none =>
-    rw [ho] at hb0
-    refine ⟨hv', hb0, ?_⟩
-    intro hio
-    obtain ⟨hb1, hoi⟩ := h.ord hio
-    have h1 := hb1.step l g op (by
-      intro h'
-      rcases h' with h' | h'
-      · exact unsafeConnack_v4 h.v4 op h'
-      · -- a PUBCOMP always reaches the state machine
-        cases op <;> simp [pubcompOnCollision] at h'
-        rename_i p
-        have : (lstep l (.inc p)).2 ≠ none := by simp [lstep, lop?]
-        exact this ho)
-    have h2 := hoi.lstep h.v4 hb1 op (fun h' => hn (Or.inl h')) (fun h' => hn (Or.inr h'))
-    rw [ho] at h1 h2
-    exact ⟨h1, h2⟩
-  | some o =>
-    rw [ho] at hb0
-    refine ⟨hv', hb0, ?_⟩
-    intro hio
-    have hio' : (g.core o).inOrder = true := hio
-    obtain ⟨sop, hl, hoe⟩ := lstep_obs ho
-    have hio0 : g.inOrder = true := by
-      rw [hoe] at hio'
-      exact core_inOrder_mono g l.st sop h.b0.inv0.sinv.cleanPanics hio'
-    obtain ⟨hb1, hoi⟩ := h.ord hio0
-    have hnt : ¬ pubcompOnCollision l op := by
-      intro ht
-      have := lstep_pubcomp_inOrder (g := g) ho ht
-      rw [this] at hio'; simp at hio'
-    have h1 := hb1.step l g op (fun h' => h'.elim (unsafeConnack_v4 h.v4 op) hnt)
-    have h2 := hoi.lstep h.v4 hb1 op (fun h' => hn (Or.inl h')) (fun h' => hn (Or.inr h'))
-    rw [ho] at h1 h2
-    exact ⟨h1, h2 hio'⟩
-
-theorem B11.new (max : Nat) (m : Bool) (h1 : 1 ≤ max) (h2 : max ≤ u16Max) :
-    B11 (LState.new .v4 max m) (Ghost.init .v4 max m) :=
-  ⟨rfl, B0.new .v4 max m h1 h2, fun _ => ⟨B1.new .v4 max m h1 h2, OInv.new max m h1⟩⟩
-
-/-- C11 clause 1 after a step: `clean()` of a clone lists the unacknowledged publishes in send order -/
-theorem C11_order_ok {l' : LState} {g' : Ghost} (h : B11 l' g') (o : Obs) (hv : o.view = g'.pView) :
+/-- C11 clause 1 after a step: `clean()` of a clone lists the unacknowledged publishes in send order
+    (no assumption on the order of acknowledgements) -/
+theorem C11_order_ok {l' : LState} {g' : Ghost} (hv : l'.st.ver = .v4) (h : B1 l' g') (o : Obs) (hview : o.view = g'.pView) :
     C11.order g' o = true := by
   unfold C11.order
-  by_cases hc : (decide (g'.ver = Version.v4) && g'.gated && g'.inOrder) = true
-  · simp only [hc, Bool.not_true, Bool.false_or]
-    simp only [Bool.and_eq_true] at hc
-    obtain ⟨hb1, hoi⟩ := h.ord hc.2
-    obtain ⟨k1, k2⟩ := hoi.order h.v4 hb1.b0.inv0.sinv hb1.g1.unacked
-    rw [hv, h.b0.g0.view, pubTags_cleanRequests, pubIds_cleanRequests, k1, k2]
-    cases o.op <;> simp
-  · have : (decide (g'.ver = Version.v4) && g'.gated && g'.inOrder) = false := by simpa using hc
-    simp [this]
+  obtain ⟨k1, k2⟩ := cleanPubs_order h.inv0.sinv hv h.g1.unacked
+  have hsent : sentPubs (cleanRequests l'.st) = cleanPubs l'.st := by
+    obtain ⟨s, pd⟩ := l'
+    exact sentPubs_cleanRequests h.inv0
+  rw [hview, h.g0.view, hsent, k1, k2]
+  cases o.op <;> simp
+
+/-- the same as a statement about the state: whatever happened before, `clean()` returns the
+    stored publishes in the order of the wire view -/
+theorem clean_order_state {l : LState} {g : Ghost} (hv : l.st.ver = .v4) (h : B1 l g) :
+    pubIds (sentPubs (cleanRequests l.st)) = g.unacked.map (·.1) ∧
+    pubTags (sentPubs (cleanRequests l.st)) = g.unacked.map (·.2) := by
+  obtain ⟨k1, k2⟩ := cleanPubs_order h.inv0.sinv hv h.g1.unacked
+  have hsent : sentPubs (cleanRequests l.st) = cleanPubs l.st := by
+    obtain ⟨s, pd⟩ := l
+    exact sentPubs_cleanRequests h.inv0
+  rw [hsent]; exact ⟨k1, k2⟩
 
 /-- C11 clause 3: a retransmitted publish goes out with its original id and content -/
-theorem C11_retransmit_ok {l : LState} (h0 : Inv0 l) (op : LOp) (o : Obs) (ho : (lstep l op).2 = some o) :
+theorem C11_retransmit_ok {l : LState} (op : LOp) (o : Obs) (ho : (lstep l op).2 = some o) :
     C11.retransmitSame o = true := by
   obtain ⟨sop, hl, rfl⟩ := lstep_obs ho
   obtain ⟨s, pd⟩ := l
@@ -320,54 +185,59 @@ theorem C11_retransmit_ok {l : LState} (h0 : Inv0 l) (op : LOp) (o : Obs) (ho : 
           | some pk => cases pk <;> simp [hp0]
         | err e => rfl
         | panic => rfl
-      · -- a publish with an id reaches the state machine only as the head of `pending`
-        cases op with
-        | pend =>
-          cases pd with
-          | nil => simp [lop?] at hl
-          | cons r rest =>
-            simp only [lop?, Option.some.injEq, SOp.out.injEq] at hl
-            subst hl
-            obtain ⟨hq, hp1, hp2, ha, hslot, hinf, hne⟩ := h0.pend_publish
-            have : (sstepObs s (.out (.publish p))).outcome = .ok (some (.publish p)) := by
-              simp only [sstepObs, mkObs]
-              rw [eff_publish_replay s p hq (by omega), eff_publishWithId_store s p ha hslot hinf]
-            rw [this]; simp
-        | user u =>
-          simp only [lop?] at hl
-          split at hl
-          · simp only [Option.some.injEq, SOp.out.injEq] at hl
-            cases u <;> simp [UserReq.toRequest] at hl
-            subst hl; simp at hp0
-          · simp at hl
-        | ping => simp [lop?] at hl
-        | inc q => simp [lop?] at hl
-        | fail => simp [lop?] at hl
-        | newSession => simp [lop?] at hl
+      · -- a numbered publish that is written is written as it is
+        have hout : (sstepObs s (.out (.publish p))).outcome = (handleOutgoing s (.publish p)).2 := rfl
+        rw [hout]
+        cases hh : (handleOutgoing s (.publish p)).2 with
+        | ok x =>
+          cases x with
+          | none => rfl
+          | some pk =>
+            cases pk with
+            | publish q =>
+              have : Packet.publish q = Packet.publish p := by
+                simp only [handleOutgoing, outgoingPublish] at hh
+                split at hh
+                · simp at hh
+                · split at hh
+                  · simp only [publishTail, Outcome.ok.injEq, Option.some.injEq] at hh; exact hh.symm
+                  · first
+                      | exact publishWithId_out s p _ hh
+                      | (simp only [hp0, if_false] at hh; exact publishWithId_out s p _ hh)
+              cases this
+              simp
+            | _ => rfl
+        | err e => rfl
+        | panic => rfl
     | _ => cases (sstepObs s (.out _)).outcome <;> rfl
   | inc p => cases (sstepObs s (.inc p)).outcome <;> rfl
   | clean => cases (sstepObs s .clean).outcome <;> rfl
   | drop => cases (sstepObs s .drop).outcome <;> rfl
   | inflight => cases (sstepObs s .inflight).outcome <;> rfl
 
-theorem c11_checks_along (max : Nat) (m : Bool) (h1 : 1 ≤ max) (h2 : max ≤ u16Max) (ops : List LOp)
-    (hn : Avoids c11Trigger (LState.new .v4 max m) ops) :
-    Along (fun _ g o _ g' => ∀ d d', C11.checks g d o g' d' = none) (LState.new .v4 max m) (Ghost.init .v4 max m) ops := by
-  apply along_of_inv' B11 (fun l op => ¬ c11Trigger l op) B11.step _ _ _ _ _ (B11.new max m h1 h2) hn.not_not
-  intro l g op o hi hok ho hi' d d'
-  obtain ⟨v1, v2, v3⟩ := step_fields g o
-  simp only [C11.checks, firstFail, chk, C11_order_ok hi' o v1.symm, C11_retransmit_ok hi.b0.inv0 op o ho, if_true,
-    List.findSome?_cons, List.findSome?_nil, id]
+/-- every v4 run avoids `unsafeConnack` -/
+theorem avoids_unsafe_v4 (l : LState) (hv : l.st.ver = .v4) (ops : List LOp) : Avoids unsafeConnack l ops := by
+  induction ops generalizing l with
+  | nil => trivial
+  | cons op ops ih => exact ⟨unsafeConnack_v4 hv op, ih _ ((lstep_ver l op).trans hv)⟩
 
+/-- the C11 monitor raises nothing at any step of any MQTT 3.1.1 run -/
+theorem c11_checks_along (max : Nat) (m : Bool) (h1 : 1 ≤ max) (h2 : max ≤ u16Max) (ops : List LOp) :
+    Along (fun _ g o _ g' => ∀ d d', C11.checks g d o g' d' = none) (LState.new .v4 max m) (Ghost.init .v4 max m) ops := by
+  apply along_of_inv' (fun l g => l.st.ver = .v4 ∧ B1 l g) (fun l op => ¬ unsafeConnack l op) _ _ _ _ _ _
+    ⟨rfl, B1.new .v4 max m h1 h2⟩ (avoids_unsafe_v4 _ rfl ops).not_not
+  · intro l g op hi hok
+    have hv' := (lstep_ver l op).trans hi.1
+    have hb := hi.2.step l g op hok
+    cases ho : (lstep l op).2 with
+    | none => rw [ho] at hb; exact ⟨hv', hb⟩
+    | some o => rw [ho] at hb; exact ⟨hv', hb⟩
+  · intro l g op o hi hok ho hi' d d'
+    obtain ⟨v1, v2, v3⟩ := step_fields g o
+    simp only [C11.checks, firstFail, chk, C11_order_ok hi'.1 hi'.2 o v1.symm, C11_retransmit_ok op o ho, if_true,
+      List.findSome?_cons, List.findSome?_nil, id]
 
 /-! ### decidability of the triggers (for the concrete witnesses and non-vacuity examples) -/
-
-instance decColId (s : State) (i : Nat) : Decidable (∃ c, s.collision = some c ∧ c.pkid = i) :=
-  match h : s.collision with
-  | none => isFalse (by rintro ⟨c, hc, _⟩; cases hc)
-  | some c =>
-    if hci : c.pkid = i then isTrue ⟨c, rfl, hci⟩
-    else isFalse (by rintro ⟨c', hc', hci'⟩; cases hc'; exact hci hci')
 
 instance (l : LState) (op : LOp) : Decidable (unsafeConnack l op) := by
   unfold unsafeConnack
@@ -377,77 +247,6 @@ instance (l : LState) (op : LOp) : Decidable (unsafeConnack l op) := by
     | connack ok sp rm am => cases ok <;> cases rm <;> simp only <;> infer_instance
     | _ => simp only; infer_instance
   | _ => simp only; infer_instance
-
-instance (l : LState) (op : LOp) : Decidable (pubcompOnCollision l op) := by
-  unfold pubcompOnCollision
-  cases op with
-  | inc p => cases p <;> simp only <;> infer_instance
-  | _ => simp only; infer_instance
-
-instance (l : LState) (op : LOp) : Decidable (idReuseAwaitingComp l op) := by
-  unfold idReuseAwaitingComp
-  cases op with
-  | user u => cases u <;> simp only <;> infer_instance
-  | _ => simp only; infer_instance
-
-instance (l : LState) (op : LOp) : Decidable (cleanWithCollision l op) := by
-  unfold cleanWithCollision
-  cases op <;> simp only <;> infer_instance
-
-instance (l : LState) (op : LOp) : Decidable (failedAckOnCollision l op) := by
-  unfold failedAckOnCollision
-  cases op with
-  | inc p => cases p <;> simp only <;> infer_instance
-  | _ => simp only; infer_instance
-
-instance (l : LState) (op : LOp) : Decidable (failedRecOrComp l op) := by
-  unfold failedRecOrComp
-  cases op with
-  | inc p => cases p <;> simp only <;> infer_instance
-  | _ => simp only; infer_instance
-
-instance (s : State) (i r : Nat) : Decidable (pubcompDropsCollision s i r) :=
-  match h : s.collision with
-  | none => isFalse (by rintro ⟨c, hc, _⟩; rw [h] at hc; cases hc)
-  | some c =>
-    if hci : c.pkid = i ∧ (relContains s i = false ∨ r ≠ 0) then isTrue ⟨c, h, hci.1, hci.2⟩
-    else isFalse (by rintro ⟨c', hc', h1, h2⟩; rw [h] at hc'; cases hc'; exact hci ⟨h1, h2⟩)
-
-instance (s : State) (p : InPub) : Decidable (unknownAlias s p) :=
-  match h : p.alias with
-  | none => isFalse (by rintro ⟨_, a, ha, _⟩; rw [h] at ha; cases ha)
-  | some a =>
-    if hc : s.ver = .v5 ∧ p.topicEmpty = true ∧ s.aliases.contains a = false then isTrue ⟨hc.1, a, h, hc.2.1, hc.2.2⟩
-    else isFalse (by rintro ⟨hv, a', ha', h1, h2⟩; rw [h] at ha'; cases ha'; exact hc ⟨hv, h1, h2⟩)
-
-instance (s : State) (p : Incoming) : Decidable (announcesUnwritten s p) := by
-  unfold announcesUnwritten
-  cases p <;> simp only <;> infer_instance
-
-instance (l : LState) (op : LOp) : Decidable (unwrittenAnnouncement l op) := by
-  unfold unwrittenAnnouncement
-  cases op <;> simp only <;> infer_instance
-
-instance (l : LState) (op : LOp) : Decidable (releaseWithFailureReason l op) := by
-  unfold releaseWithFailureReason
-  cases op with
-  | inc p => cases p <;> simp only <;> infer_instance
-  | _ => simp only; infer_instance
-
-instance (l : LState) (op : LOp) : Decidable (subConsumesId l op) := by
-  unfold subConsumesId
-  cases op with
-  | user u => cases u <;> simp only <;> infer_instance
-  | _ => simp only; infer_instance
-
-instance (l : LState) (op : LOp) : Decidable (dropsPending l op) := by
-  unfold dropsPending
-  cases op <;> simp only <;> infer_instance
-
-instance (l : LState) (op : LOp) : Decidable (c07Trigger l op) := by unfold c07Trigger; infer_instance
-instance (l : LState) (op : LOp) : Decidable (c02Trigger l op) := by unfold c02Trigger; infer_instance
-instance (l : LState) (op : LOp) : Decidable (c10Trigger l op) := by unfold c10Trigger; infer_instance
-instance (l : LState) (op : LOp) : Decidable (c11Trigger l op) := by unfold c11Trigger; infer_instance
 
 instance decAvoids (trig : LState → LOp → Prop) [∀ l op, Decidable (trig l op)] :
     ∀ (l : LState) (ops : List LOp), Decidable (Avoids trig l ops)
@@ -474,28 +273,11 @@ theorem along_iff_alongB (P : Ghost → Obs → Ghost → Bool) (l : LState) (g 
     | none => exact ih _ _
     | some o => simp only [Bool.and_eq_true]; rw [ih]
 
-/-- every v4 run avoids `unsafeConnack` -/
-theorem avoids_unsafe_v4 (l : LState) (hv : l.st.ver = .v4) (ops : List LOp) : Avoids unsafeConnack l ops := by
-  induction ops generalizing l with
-  | nil => trivial
-  | cons op ops ih => exact ⟨unsafeConnack_v4 hv op, ih _ ((lstep_ver l op).trans hv)⟩
-
-theorem avoids_v5only_v4 (trig : LState → LOp → Prop) (h5 : ∀ l op, trig l op → l.st.ver = .v5)
-    (l : LState) (hv : l.st.ver = .v4) (ops : List LOp) : Avoids trig l ops := by
-  induction ops generalizing l with
-  | nil => trivial
-  | cons op ops ih =>
-    refine ⟨fun h => ?_, ih _ ((lstep_ver l op).trans hv)⟩
-    have := h5 l op h; rw [hv] at this; cases this
-
 instance (l : LState) : Decidable (Inv3 l) := by unfold Inv3; infer_instance
-
 
 theorem handleOutgoing_maxInflight (s : State) (r : Request) : (handleOutgoing s r).1.maxInflight = s.maxInflight := by
   cases r with
-  | publish p =>
-    simp only [handleOutgoing, outgoingPublish, publishWithId, publishTail, nextPkidSt]
-    (repeat' split) <;> simp_all [State.pushOut, State.pushEv]
+  | publish p => exact (outgoingPublish_fields s p).2.2.1
   | pubrel i =>
     simp only [handleOutgoing, outgoingPubrel, pubrelWithId, nextPkidSt]
     (repeat' split) <;> simp_all [State.pushOut, State.pushEv]
@@ -510,6 +292,9 @@ theorem handleOutgoing_maxInflight (s : State) (r : Request) : (handleOutgoing s
   | puback i => rfl
   | pubrec i => rfl
   | other => rfl
+
+theorem maxInflight_v4 (s : State) (hv : s.ver = .v4) (p : Incoming) : (handleIncoming s p).1.maxInflight = s.maxInflight := by
+  rw [handleIncoming_maxInflight, hv]
 
 /-- the MQTT 3.1.1 client never changes its limit -/
 theorem lrun_maxInflight_v4 (l : LState) (hv : l.st.ver = .v4) (ops : List LOp) :
